@@ -189,8 +189,8 @@ Proof.
 Qed.
 
 Ltac simp_sm :=
-  cbn [s_client s_maxBidi s_maxUni s_ob s_ou s_ib s_iu s_reset s_zomb s_out s_in set_out set_in
-       set_zomb set_reset via_out via_in fst snd] in *.
+  cbn [s_client s_maxBidi s_maxUni s_ob s_ou s_ib s_iu s_reset s_zomb s_zacc s_out s_in set_out set_in
+       set_zomb set_zacc set_reset via_out via_in fst snd] in *.
 
 Lemma sm_set_out : forall s uni m, sm_inv s -> out_inv uni (s_client s) m -> sm_inv (set_out s uni m).
 Proof.
@@ -250,7 +250,7 @@ Lemma tstep_inv : forall s o s' r fr, sm_inv s -> top_ok o -> tstep s o = (s', r
   sm_inv s' /\ same_params s s'.
 Proof.
   intros s o s' r fr I Hok E.
-  destruct o as [uni|uni w c|uni w|uni w|uni|uni stale| |id|uni n|nb nu|id|id|e| |]; cbn [tstep top_ok] in *.
+  destruct o as [uni|uni w c|uni w|uni w|uni a|uni a|uni a|id|uni n|nb nu|id|id|e| |]; cbn [tstep top_ok] in *.
   - destruct (s_reset s); [inj3 E; subst s'; split; [exact I|apply same_params_refl]|].
     eapply via_out_inv; eauto. exact Logic.I.
   - destruct (s_reset s); [inj3 E; subst s'; split; [exact I|apply same_params_refl]|].
@@ -265,9 +265,15 @@ Proof.
     + eapply via_out_inv; eauto. exact Logic.I.
   - destruct (s_reset s); [inj3 E; subst s'; split; [exact I|apply same_params_refl]|].
     eapply via_in_inv; eauto. exact Logic.I.
-  - destruct stale; [inj3 E; subst s'; split; [exact I|apply same_params_refl]|].
-    eapply via_in_inv; eauto. exact Logic.I.
-  - inj3 E; subst s'. split; [exact I|apply same_params_refl].
+  - destruct (zmem a (s_zacc s)).
+    + inj3 E; subst s'. split; [|repeat split; reflexivity]. destruct I as (H1 & H2 & H3 & H4 & H5 & H6).
+      unfold sm_inv, set_zacc; simp_sm. repeat split; assumption || apply H3 || apply H4 || apply H5 || apply H6.
+    + destruct (zmem a (i_parked (s_in s uni))); [|inj3 E; subst s'; split; [exact I|apply same_params_refl]].
+      eapply via_in_inv; eauto. exact Logic.I.
+  - destruct (zmem a (s_zacc s)).
+    + inj3 E; subst s'. split; [|repeat split; reflexivity]. destruct I as (H1 & H2 & H3 & H4 & H5 & H6).
+      unfold sm_inv, set_zacc; simp_sm. repeat split; assumption || apply H3 || apply H4 || apply H5 || apply H6.
+    + eapply via_in_inv; eauto. exact Logic.I.
   - unfold t_delete in E. destruct (by_self s id).
     + eapply via_out_inv; eauto. exact Logic.I.
     + eapply via_in_inv; eauto. exact Logic.I.
